@@ -9,7 +9,7 @@ import time
 from .extract import Ctx, ExtractionDrift
 
 VERIF = os.path.dirname(os.path.dirname(os.path.abspath(__file__)))
-GEN = os.path.join(VERIF, "gen")
+GEN = os.environ.get("VERIF_GEN", os.path.join(VERIF, "gen"))
 PRELUDE = os.path.join(VERIF, "prelude")
 MEM_KB = int(os.environ.get("VERIF_MEM_GB", "10")) * 1024 * 1024
 
